@@ -824,7 +824,7 @@ func (s *c02Store) quiet() bool {
 			return true
 		}
 		if iter > 50 {
-			if time.Since(start) > 3*time.Second {
+			if time.Since(start) > 20*time.Second {
 				return false
 			}
 			time.Sleep(20 * time.Microsecond)
